@@ -171,6 +171,9 @@ def configs(tier):
         for sp in extra_networks(n0, k1, k2):
             for sim in ('ssa', 'volume', 'delay'):
                 out.append(dict(spec=sp, sim=sim, safe=True, ma_only=False, bound=2))
+                if sp['name'].startswith('S10'):
+                    # pure mass action: also without the safe interface (which would hide a wrong combinatorial rate)
+                    out.append(dict(spec=sp, sim=sim, safe=False, ma_only=True, bound=2))
                 if sim != 'volume':
                     # the same network reached through edits with rejected create_reaction calls in between
                     out.append(dict(spec=sp, sim=sim, safe=True, ma_only=False, bound=1, edited=True))
